@@ -200,6 +200,28 @@ CHECKS = {
              'outside the histories.',
         technique='Lean 4 proof (invariant by induction over histories, refinement to field values) + differential correspondence over operation histories with a watchdog',
         design='§6 C16'),
+    'C08': dict(
+        text='Lean 4 theorems over exact rationals for all inputs (no magnitude bound): both constructor loops terminate within their computed '
+             'fuel, leaving lon in [-180,180) and lat in [-90,90]; normalisation is the identity on that range and idempotent; over the reals '
+             'every loop step, and so the whole normalisation, preserves the unit vector (same point on the sphere); == is an equivalence that '
+             'ignores M and implies equal hash keys; Z survives construction and export (incl. 0.0); _from_xyz after xyz is the identity away '
+             'from the poles (antimeridian fold and poles treated separately). Tied to coordinates.py bit-exactly with an independent closed-form oracle.',
+        note='For |x| <= 1e5 the float loops are exact, so the float program is the rational program (checked bit-exactly); the one rounding step '
+             '(lon +-180 of a longitude off the 2^-45 grid) is compared within one ulp of 180 in a separate stream; xyz theorems are over the '
+             'reals, libm error is only measured; NaN/inf are excluded (the loops do not terminate there).',
+        technique='Lean 4 proof (termination measure, invariants, real trigonometric identities) + bit-exact differential correspondence + exact-fraction oracle',
+        design='§6 C08'),
+    'C19': dict(
+        text='Lean 4 theorems over an exact-arithmetic model of to_dms / from_dms / to_qdms / from_qdms (partial for the external formats): DMS round '
+             'trip <= 0.000005 arc-second and hemisphere letters equal the sign; QDMS strings are always 10 and 9 characters; string-level read-back '
+             'of the written text yields exactly the written fields; QDMS round trip <= 0.006605 arc-second for all inputs with the bound attained '
+             '(proved counter-witness to the stated 0.005, known finding F19c) and <= 0.0036 for inputs with at most 6 decimals. Exact-text '
+             'correspondence wherever no rounding boundary is within float noise, numeric elsewhere. MGRS and pyproj round trips are tested '
+             'against the real libraries only (F19b known).',
+        note='round_half_up is modelled as exact round-half-up (the float nudge is not modelled); repr/float/format are CPython runtime; mgrs and '
+             'pyproj are trusted references for the np- streams.',
+        technique='Lean 4 proof (rounding and divmod arithmetic, decimal-string lemmas) + differential correspondence on exact strings + library-backed round-trip tests',
+        design='§6 C19'),
     'C06': dict(
         text='Lean 4 theorems: every TimeInterval operator of the model equals the dense-time set model '
              '[start,end) / {start} for all intervals and instants (membership, subset, superset, disjoint, '
